@@ -476,7 +476,106 @@ const sysStall = 150 * time.Second
 // runSys applies the stall rule of DESIGN 4.3 to the whole system: a stalled case is re-run
 // alone with a doubled budget; if it stalls again a canary case (no faults, one proxy, 1 KB)
 // decides between "the environment is broken" (inconclusive) and a violation.
+// ---------------------------------------------------------------------------
+// C07 observed at the whole system: the log files the four binaries write (none of them is
+// started with -unsafe-logging). Oracle, deliberately narrower than the statement so that it
+// can never demand more: a maximal run of address characters that as a whole parses as an IP
+// address, IP:port, [IP] or [IP]:port is an address bounded by line boundaries, whitespace or
+// punctuation other than ':' - it must not be there.
+
+var logOffsets = map[string]int64{}
+
+func addrToken(tok string) bool {
+	tok = strings.Trim(tok, ".")
+	if tok == "" {
+		return false
+	}
+	if h, _, err := net.SplitHostPort(tok); err == nil {
+		tok = h
+	} else if strings.HasPrefix(tok, "[") && strings.HasSuffix(tok, "]") {
+		tok = tok[1 : len(tok)-1]
+	}
+	if i := strings.IndexByte(tok, '%'); i >= 0 {
+		tok = tok[:i]
+	}
+	return net.ParseIP(tok) != nil
+}
+
+func isAddrChar(b byte) bool {
+	return b >= '0' && b <= '9' || b >= 'a' && b <= 'f' || b >= 'A' && b <= 'F' || b == ':' || b == '.' || b == '[' || b == ']' || b == '%'
+}
+
+// scanLogs reads what the binaries appended to their logs since the last call (complete lines only).
+func scanLogs(e *env) (lines, placeholders int, survivors []string) {
+	files, _ := filepath.Glob(filepath.Join(e.dir, "*.log"))
+	for _, f := range files {
+		if filepath.Base(f) == "metrics.log" {
+			continue
+		}
+		fh, err := os.Open(f)
+		if err != nil {
+			continue
+		}
+		off := logOffsets[f]
+		fh.Seek(off, 0)
+		b, _ := io.ReadAll(fh)
+		fh.Close()
+		if i := strings.LastIndexByte(string(b), '\n'); i >= 0 {
+			b = b[:i+1]
+		} else {
+			continue
+		}
+		logOffsets[f] = off + int64(len(b))
+		for _, line := range strings.Split(strings.TrimSuffix(string(b), "\n"), "\n") {
+			lines++
+			placeholders += strings.Count(line, "[scrubbed]")
+			wordy := func(b byte) bool { return b >= 'g' && b <= 'z' || b >= 'G' && b <= 'Z' || b == '_' }
+			for i := 0; i < len(line); {
+				if !isAddrChar(line[i]) {
+					i++
+					continue
+				}
+				j := i
+				for j < len(line) && isAddrChar(line[j]) {
+					j++
+				}
+				// a run glued to a letter or '_' on either side is part of a word, not a delimited address;
+				// so is one reached through a ':' (the statement excludes ':' as a delimiter)
+				glued := i > 0 && wordy(line[i-1]) || j < len(line) && wordy(line[j])
+				if !glued && addrToken(line[i:j]) {
+					l := line
+					if len(l) > 300 {
+						l = l[:300] + "..."
+					}
+					survivors = append(survivors, fmt.Sprintf("%s: address %q in line %q", filepath.Base(f), line[i:j], l))
+				}
+				i = j
+			}
+		}
+	}
+	return
+}
+
 func runSys(t *testing.T, c sysCase) error {
+	err := runSysCase(t, c)
+	if theEnv != nil {
+		lines, ph, surv := scanLogs(theEnv)
+		uSys.Add("log_lines_scanned", int64(lines))
+		uSys.Add("log_placeholders_seen", int64(ph))
+		uSys.Add("log_addresses_surviving", int64(len(surv)))
+		if ph > 0 {
+			uSys.Add("cases_with_scrubbed_log_lines", 1)
+		}
+		if err == nil && len(surv) > 0 && sysPurpose == "c07" {
+			return fmt.Errorf("%d address(es) reached the log files of the binaries (none runs with -unsafe-logging); first: %s", len(surv), surv[0])
+		}
+	}
+	return err
+}
+
+var sysPurpose = os.Getenv("VERIF_SYS_PURPOSE")
+
+func runSysCase(t *testing.T, c sysCase) error {
 	err := runSysOnce(t, c, sysStall)
 	if err == nil || !strings.HasPrefix(err.Error(), "STALL:") {
 		return err
@@ -616,7 +715,12 @@ func runSysOnce(_ *testing.T, c sysCase, stall time.Duration) error {
 	return nil
 }
 
-var uSys = vstat.New("C01", "c01_system")
+var uSys = func() *vstat.Unit {
+	if sysPurpose == "c07" {
+		return vstat.New("C07", "c07_system")
+	}
+	return vstat.New("C01", "c01_system")
+}()
 
 func init() { vstat.Register(uSys, runSys) }
 
@@ -649,7 +753,11 @@ func TestVerifC01System(t *testing.T) {
 	}()
 	start := time.Now()
 	rapid.Check(t, func(rt *rapid.T) {
-		if time.Since(start) > time.Duration(vstat.Pick(100, 1500))*time.Second {
+		budget := vstat.Pick(100, 1500)
+		if sysPurpose == "c07" {
+			budget = vstat.Pick(100, 600)
+		}
+		if time.Since(start) > time.Duration(budget)*time.Second {
 			return // time budget of this real-time unit used up: the remaining iterations are empty (not counted as cases)
 		}
 		counter++
@@ -691,6 +799,16 @@ func TestVerifC01System(t *testing.T) {
 			labels = append(labels, "client and server libraries in the harness process")
 		}
 		nt := len(c.Faults) > 0 && c.S.UpSize+c.S.DownSize >= 300000
+		if sysPurpose == "c07" {
+			// many short runs: what matters is the variety of messages (errors carry addresses)
+			if c.S.UpSize > 300000 {
+				c.S.UpSize = 300000
+			}
+			if c.S.DownSize > 300000 {
+				c.S.DownSize = 300000
+			}
+			nt = c.AllBin || len(c.Faults) > 0
+		}
 		uSys.Journal(c)
 		vstat.Run(uSys, t, rt, c, nt, labels, runSys)
 	})
